@@ -973,7 +973,7 @@ func TestC29(t *testing.T) {
 	for _, c := range corpus() {
 		emit("corpus", c.cfg, c.ops)
 	}
-	nHist, nSmall, nChain, nShort := e.Pick(260, 6000), e.Pick(60, 1500), e.Pick(260, 6000), e.Pick(6, 60)
+	nHist, nSmall, nChain, nShort := e.Pick(170, 5000), e.Pick(40, 1200), e.Pick(170, 5000), e.Pick(5, 60)
 	for i := 0; i < nHist; i++ {
 		cfg, ops := g.history("hist")
 		emit("history", cfg, g.finalize(cfg, ops, false))
